@@ -5,41 +5,45 @@
    fewer than three labels are left, so the outer `while len(input_labels) > 2` runs its body at
    most once.  Every block is non-empty (out[it][0] exists).  The final
    `out[0][len(out[0]) - 1]` needs a non-empty first column: the first bits of the blocks survive
-   `filter(None, .)` because they are gates of the final circuit, in which "" is not a gate when
-   it is none of the host and the naming function never yields "" (ArithSumMinted). *)
+   `filter(None, .)` because they are outputs of cells, i.e. carry uuid labels
+   (ArithSumResultsQ), and the naming function never yields "". *)
 Require Import Cirbo.Model.Base Cirbo.Model.Gate Cirbo.Model.Circuit Cirbo.Model.Builder.
 Require Import Cirbo.Generated.ArithTables Cirbo.Generated.ArithCells.
 Require Import Cirbo.Model.ArithSub Cirbo.Model.ArithSum2 Cirbo.Model.ArithSumN Cirbo.Model.ArithSumW
   Cirbo.Model.ArithGen.
 Require Import Cirbo.Proofs.DictFacts Cirbo.Proofs.BuilderFacts Cirbo.Proofs.ArithFacts
   Cirbo.Proofs.TotalFacts Cirbo.Proofs.ArithTotalFacts Cirbo.Proofs.ArithSumTotalN
-  Cirbo.Proofs.ArithSumTotalW Cirbo.Proofs.ArithSumMinted.
+  Cirbo.Proofs.ArithSumTotalW Cirbo.Proofs.ArithSumMinted Cirbo.Proofs.ArithSumResultsQ.
 
-Definition goodblk (c : circuit) (blk : list label) : Prop := blk <> [] /\ all_exist c blk.
+Definition nonempty_label (l : label) : Prop := l <> ""%string.
+Definition goodblk (c : circuit) (blk : list label) : Prop :=
+  blk <> [] /\ all_exist c blk /\ Forall nonempty_label blk.
 Definition goodblks (c : circuit) (out : list (list label)) : Prop := Forall (goodblk c) out.
 
 Lemma goodblks_ext c c' out : ext c c' -> goodblks c out -> goodblks c' out.
 Proof.
-  intros Hx H. eapply Forall_impl; [|exact H]. intros blk (H1 & H2). split; [exact H1|eapply all_exist_ext; eassumption].
+  intros Hx H. eapply Forall_impl; [|exact H]. intros blk (H1 & H2 & H3).
+  split; [exact H1|]. split; [eapply all_exist_ext; eassumption|exact H3].
 Qed.
 
 (* the first column of zip_longest( *out) after filter(None, .) *)
 Lemma columns_good c out :
-  out <> [] -> goodblks c out -> has_gate c "" = false ->
+  out <> [] -> goodblks c out ->
   exists c0 rest, columns out = c0 :: rest /\ c0 <> [].
 Proof.
-  intros Hne Hg H0. destruct out as [|blk out']; [contradiction|]. inversion Hg as [|? ? (Hb & Hex) _]; subst.
-  destruct blk as [|h t]; [contradiction|]. inversion Hex as [|? ? Hh _]; subst.
+  intros Hne Hg. destruct out as [|blk out']; [contradiction|]. inversion Hg as [|? ? (Hb & _ & Hex) _]; subst.
+  destruct blk as [|h t]; [contradiction|]. inversion Hex as [|? ? Hh _]; subst. unfold nonempty_label in Hh.
   unfold columns. cbn [map fold_right length].
   destruct (Nat.max (S (length t)) (fold_right Nat.max 0%nat (map (@length label) out'))) as [|m] eqn:Em; [lia|].
   cbn [seq map]. eexists _, _. split; [reflexivity|].
   unfold column. cbn [flat_map nth_error].
-  destruct (String.eqb_spec h "") as [->|_]; [congruence|]. discriminate.
+  destruct (String.eqb_spec h "") as [->|_]; [contradiction|]. discriminate.
 Qed.
 
 Section TotalP.
   Variable fresh : N -> label.
   Hypothesis Hf : fresh_total fresh.
+  Hypothesis Hfr : forall k, nonempty_label (fresh k).
 
   Ltac finish := cbn [run]; eexists _, _; split; [reflexivity|].
 
@@ -59,6 +63,8 @@ Section TotalP.
       destruct (add_sum_n_bits_ok fresh Hf basis b false (firstn i labels) s Hb) as (blk & s1 & E1 & H1 & Hne);
         [apply all_exist_firstn, Hl|].
       rewrite (bind_ok _ _ _ _ _ _ E1). pose proof (run_ext _ _ _ _ _ E1) as X1.
+      assert (Forall nonempty_label blk) as Hq.
+      { apply (add_sum_n_bits_Q fresh nonempty_label Hfr _ _ _ _ _ _ E1). rewrite firstn_length. lia. }
       destruct blk as [|b0 blk'].
       { exfalso. apply Hne; [|reflexivity]. intros E0. apply (f_equal (@length label)) in E0.
         rewrite firstn_length in E0. simpl in E0. lia. }
@@ -70,7 +76,7 @@ Section TotalP.
       { apply all_exist_app; [apply all_exist_skipn; eapply all_exist_ext; eassumption|].
         constructor; [exact Hb0|constructor]. }
       { apply Forall_app. split; [eapply goodblks_ext; eassumption|].
-        constructor; [split; [discriminate|exact H1]|constructor]. }
+        constructor; [split; [discriminate|split; [exact H1|exact Hq]]|constructor]. }
       exists r, s2. split; [exact E2|]. split; [exact H2|]. split; [exact H3|]. split; [exact L1|].
       assert (snd r <> []) as Hsn by (apply Hn1; destruct out; discriminate).
       rewrite app_length, skipn_length in L2. simpl in L2. split; [lia|]. split; [intros _; exact Hsn|left; exact Hsn].
@@ -127,10 +133,9 @@ Section TotalP.
   (* Python: `assert n > 0`; for n = 1 the basis is not even looked at *)
   Theorem add_sum_pow2_m1_ok basis be xs s :
     xs <> [] -> all_exist (bc s) xs -> ((2 <= length xs)%nat -> exists b, resolve_basis basis = Ok b) ->
-    has_gate (bc s) "" = false -> (forall k, fresh k <> "") ->
     exists r s', run fresh (add_sum_pow2_m1 basis be xs) s = Ok (r, s').
   Proof.
-    intros Hne Hx Hb H0 Hfr. unfold add_sum_pow2_m1.
+    intros Hne Hx Hb. unfold add_sum_pow2_m1.
     destruct xs as [|x [|y rest]]; [contradiction|cbn [run]; eauto|].
     destruct Hb as (b & Hb); [simpl; lia|]. rewrite Hb. cbn [ret_res].
     rewrite (bind_ok fresh (Ret b) _ s b s eq_refl).
@@ -138,19 +143,18 @@ Section TotalP.
     destruct (blocks_outer_ok basis b (S (length xs)) xs s Hb) as ([labels out] & s1 & E1 & H1 & H2 & Hbig & Hsmall);
       [lia|exact Hx|].
     rewrite (bind_ok _ _ _ _ _ _ E1). cbn [fst snd] in *. cbv beta iota.
-    pose proof (gen_only_no_empty fresh _ _ _ _ (go_blocks_outer basis _ _ _) E1 H0 Hfr) as H01.
     assert (exists out' s2, run fresh
               (match labels with
                | [x0; y0] =>
                  bdo blk <- (match b with AIG => add_sum2_aig [x0; y0] | XAIG => add_sum2 [x0; y0] end);
                  bdo _ <- nthP blk 0; Ret (out ++ [blk])
                | _ => Ret out
-               end) s1 = Ok (out', s2) /\ out' <> [] /\ goodblks (bc s2) out' /\ has_gate (bc s2) "" = false)
-      as (out' & s2 & E2 & Hne2 & Hg2 & H02).
+               end) s1 = Ok (out', s2) /\ out' <> [] /\ goodblks (bc s2) out')
+      as (out' & s2 & E2 & Hne2 & Hg2).
     { assert (forall l, (match l with [x0; y0] => False | _ => True end : Prop) -> labels = l ->
-                exists out' s2, run fresh (Ret out) s1 = Ok (out', s2) /\ out' <> [] /\ goodblks (bc s2) out' /\
-                                has_gate (bc s2) "" = false) as Hother.
-      { intros l Hshape El. exists out, s1. split; [reflexivity|]. split; [|split; [exact H2|exact H01]].
+                exists out' s2, run fresh (Ret out) s1 = Ok (out', s2) /\ out' <> [] /\ goodblks (bc s2) out')
+        as Hother.
+      { intros l Hshape El. exists out, s1. split; [reflexivity|]. split; [|exact H2].
         destruct (Nat.le_gt_cases (length xs) 2) as [Hle|Hgt]; [|apply Hbig; lia].
         specialize (Hsmall Hle). injection Hsmall as Hl _. subst labels. unfold xs in *.
         destruct rest; [subst l; contradiction|simpl in Hle; lia]. }
@@ -160,20 +164,21 @@ Section TotalP.
       assert (exists blk s2, run fresh (match b with AIG => add_sum2_aig [x0; y0] | XAIG => add_sum2 [x0; y0] end) s1
                              = Ok (blk, s2) /\ (exists a c, blk = [a; c] /\ has_gate (bc s2) a = true /\
                                                            has_gate (bc s2) c = true) /\
-                             has_gate (bc s2) "" = false) as (blk & s2 & E2 & (a & c & -> & Ha & Hc) & H02).
+                             Forall nonempty_label blk) as (blk & s2 & E2 & (a & c & -> & Ha & Hc) & Hq).
       { destruct b.
         - destruct (add_sum2_ok fresh Hf x0 y0 s1 Hx0 Hy0) as (blk & s2 & E2 & Hblk).
           exists blk, s2. split; [exact E2|]. split; [exact Hblk|].
-          exact (gen_only_no_empty fresh _ _ _ _ (go_add_sum2 _) E2 H01 Hfr).
+          exact (add_sum2_Q fresh nonempty_label Hfr _ _ _ _ E2).
         - destruct (add_sum2_aig_ok fresh Hf x0 y0 s1 Hx0 Hy0) as (blk & s2 & E2 & Hblk).
           exists blk, s2. split; [exact E2|]. split; [exact Hblk|].
-          exact (gen_only_no_empty fresh _ _ _ _ (go_add_sum2_aig _) E2 H01 Hfr). }
+          exact (add_sum2_aig_Q fresh nonempty_label Hfr _ _ _ _ E2). }
       rewrite (bind_ok _ _ _ _ _ _ E2). unfold nthP, nth_res. cbn [nth_error ret_res]. cbn [run].
-      eexists _, _. split; [reflexivity|]. split; [destruct out; discriminate|]. split; [|exact H02].
+      eexists _, _. split; [reflexivity|]. split; [destruct out; discriminate|].
       apply Forall_app. split; [eapply goodblks_ext; [eapply run_ext; exact E2|exact H2]|].
-      constructor; [|constructor]. split; [discriminate|]. constructor; [exact Ha|constructor; [exact Hc|constructor]]. }
+      constructor; [|constructor]. split; [discriminate|]. split; [|exact Hq].
+      constructor; [exact Ha|constructor; [exact Hc|constructor]]. }
     rewrite (bind_ok _ _ _ _ _ _ E2).
-    destruct (columns_good (bc s2) out' Hne2 Hg2 H02) as (c0 & rest' & -> & Hc0).
+    destruct (columns_good (bc s2) out' Hne2 Hg2) as (c0 & rest' & -> & Hc0).
     destruct (lastP_ok fresh c0 s2 Hc0) as (l & El & _).
     rewrite (bind_ok _ _ _ _ _ _ El). cbn [run]. eauto.
   Qed.
